@@ -57,6 +57,16 @@ pub fn replay(sink: &mut Sink, toks: &[&str]) {
     let cfg = cfg_tag();
     let b = unhex(toks[5]);
     let calls: usize = toks[4].parse().unwrap_or(4);
+    // a case recorded after `disable_recursion_limit()` (configuration token `…+nolimit`, feature unbounded_depth) or with deep items
+    if toks[1].contains("nolimit") || b.len() > 400 {
+        let nolimit = toks[1].contains("nolimit");
+        let (b2, t2, s2) = (b.clone(), toks[2].to_string(), toks[3].to_string());
+        let o = std::thread::Builder::new().stack_size(256 << 20).spawn(move || crate::streamraw::history(&t2, &s2, &b2, calls, vec![2, 1, 3], nolimit))
+            .unwrap().join().unwrap_or("PANIC".into());
+        let cfgs = if nolimit { format!("{}+nolimit", cfg) } else { cfg.clone() };
+        sink.case("stream", &[&cfgs, toks[2], toks[3], toks[4], toks[5]], &o, "replay", true);
+        return;
+    }
     let o = history(toks[2], toks[3], &b, calls);
     sink.case("stream", &[&cfg, toks[2], toks[3], toks[4], toks[5]], &o, "replay", true);
 }
@@ -106,6 +116,44 @@ fn long_streams(sink: &mut Sink, cfg: &str, r: &mut Rng, thorough: bool) {
     }
 }
 
+/// one `stream` case per target and source through `streamraw::history` (which calls `disable_recursion_limit()` before `into_iter()` when
+/// `nolimit`, feature unbounded_depth) on a thread with a big stack; the configuration token gets `+nolimit` then
+fn emit_deep(sink: &mut Sink, cfg: &str, b: &[u8], calls: usize, nolimit: bool, tag: &str) {
+    let cfgs = if nolimit { format!("{}+nolimit", cfg) } else { cfg.to_string() };
+    for tgt in ["value", "ignored"] {
+        for src in ["str", "slice", "reader"] {
+            let (b2, t2, s2) = (b.to_vec(), tgt.to_string(), src.to_string());
+            let o = std::thread::Builder::new().stack_size(256 << 20).spawn(move || crate::streamraw::history(&t2, &s2, &b2, calls, vec![2, 1, 3], nolimit))
+                .unwrap().join().unwrap_or("PANIC".into());
+            let class = if o.contains(":syntax:") { "syntax" } else if o.contains(":eof:") { "eof" } else if o.contains("PANIC") { "panic" } else { "clean" };
+            sink.case("stream", &[&cfgs, tgt, src, &calls.to_string(), &hexf(b)], &o, &format!("{}:{}:{}:{}:{}", tag, if nolimit { "nolimit" } else { "limit" }, tgt, src, class), true);
+        }
+    }
+}
+
+/// Tag `deep-stream`: streams whose items nest 127 / 128 / 129 (with unbounded_depth also 200 / 1000) deep — brackets, braces, alternating —, alone, between
+/// two scalars, and two deep items in a row; with the limit in force and (feature unbounded_depth) after `disable_recursion_limit()` on the
+/// Deserializer that `into_iter()` turns into the stream: the stream must yield exactly the values the grammar describes, deep ones included.
+fn deep_streams(sink: &mut Sink, cfg: &str, thorough: bool) {
+    let depths: &[usize] = if cfg!(feature = "ud") { &[127, 128, 129, 200, 1000] } else { &[127, 128, 129] };
+    for &d in depths {
+        for mix in 0..3usize {
+            for shape in 0..3 {
+                if !thorough && d == 1000 && (mix == 2 || shape == 1) { continue; }
+                let item = crate::streamraw::nested(d, mix);
+                let doc: Vec<u8> = match shape {
+                    0 => item.clone(),
+                    1 => [&b"1 "[..], &item, b"\n2"].concat(),
+                    _ => [&item[..], if mix == 1 { b"" } else { b" " }, &crate::streamraw::nested(if d == 128 { 127 } else { d }, (mix + 1) % 3), b" null"].concat(),
+                };
+                emit_deep(sink, cfg, &doc, 5, false, "deep-stream");
+                #[cfg(feature = "ud")]
+                emit_deep(sink, cfg, &doc, 5, true, "deep-stream");
+            }
+        }
+    }
+}
+
 pub fn run(sink: &mut Sink, thorough: bool, seed: u64) {
     let mut r = Rng::new(seed);
     let cfg = cfg_tag();
@@ -122,6 +170,7 @@ pub fn run(sink: &mut Sink, thorough: bool, seed: u64) {
         for b in inputs { emit(sink, &cfg, &b, len + 3, &format!("exh{}", len)); }
     }
     long_streams(sink, &cfg, &mut r, thorough);
+    deep_streams(sink, &cfg, thorough);
     // concatenations of generated values with every separator choice, truncated and corrupted
     let n = if thorough { 6000 } else { 600 };
     for _ in 0..n {
